@@ -40,13 +40,20 @@ MANIFEST = dict(
          "and the same tempo rows, every time being the piecewise-linear integral of beat length over header tempo and all tempo "
          "events (after the last note and exactly at a note included; <= vs < proved immaterial).  Parts proved separately: "
          "header decoding inverts the 300-byte layout (live layout table = reference), package parser inverts the package layout, "
-         "little-endian and binary32 decode lemmas, one hold buffer = per-column pairing, sweep = integration, oracle soundness.  "
+         "little-endian and binary32 decode lemmas, one hold buffer = per-column pairing, sweep = integration, oracle soundness; "
+         "oracle completeness at tolerance 0 (C07_specb_complete: specb 0 decides the specification) and at any tolerance when the "
+         "rows the file denotes are separated (C07_specb_complete_separated; decidable guard on the denotation), refuted without the "
+         "guard (C07_specb_complete_refuted: greedy matcher, two taps 1 ms apart at tolerance 1); the one hold buffer shared by all "
+         "difficulties is unobservable on well-formed files (C07_hold_buffer_sharing_unobservable) and observable on a malformed one "
+         "(C07_open_head_closed_in_next_difficulty; the real reader returns the same long note).  "
          "The model is tied to the code on every run by in-Coq correspondence on generated OJN byte strings (equality with the "
          "model is demanded) and the format oracle ojn_denote is evaluated on the implementation's output.",
     note="The reader of the tree before commits 9171148/d4c1412 is refuted with concrete witnesses kept in corpus/C07 (fixed: a regression "
          "raises a VIOLATION).  Trusted: Coq kernel+VM, generator/serialiser, struct.pack as reference encoder (cross-checked against the Coq "
          "encoder on every case); binary64 rounding inside the reader measured (1e-6 ms; exact stream on powers of two) not proved; "
-         "the theorems are about the model, the code is tied to it by the per-run correspondence.",
+         "the theorems are about the model, the code is tied to it by the per-run correspondence.  The boolean oracle (and py_oracle, the "
+         "same greedy first-fit matcher) is sound for every tolerance but complete only at tolerance 0 or on separated denotations: "
+         "outside that it could raise a false alarm, never miss a violation; generated files are separated (times > 4e-3 ms apart vs 1e-6).",
     technique="Coq proof over executable byte-level model + vm_compute correspondence + reference-interpreter oracle",
     design="4/C07, B.5")
 
